@@ -287,13 +287,49 @@ def _csphere2_nodes(nt=240, na=12, nd=360):
     return z, wgt
 
 
+def _csphere3_nodes(n1=120, n2=60, na=4, nb=6, ng=6):
+    x1, w1 = np.polynomial.legendre.leggauss(n1)
+    x2, w2 = np.polynomial.legendre.leggauss(n2)
+    t1, t2 = (x1 + 1) * math.pi / 4, (x2 + 1) * math.pi / 4
+    w1, w2 = w1 * math.pi / 4, w2 * math.pi / 4
+    al = np.arange(na) * 2 * math.pi / na
+    be = np.arange(nb) * 2 * math.pi / nb
+    ga = np.arange(ng) * 2 * math.pi / ng
+    T1, T2, Al, Be, Ga = np.meshgrid(t1, t2, al, be, ga, indexing='ij')
+    z = np.stack([np.cos(T1) * np.exp(1j * Al), np.sin(T1) * np.cos(T2) * np.exp(1j * Be),
+                  np.sin(T1) * np.sin(T2) * np.exp(1j * Ga)], -1).reshape(-1, 3)
+    wgt = (w1[:, None, None, None, None] * w2[None, :, None, None, None]
+           * np.cos(T1) * np.sin(T1) ** 3 * np.cos(T2) * np.sin(T2)
+           * (2 * math.pi / na) * (2 * math.pi / nb) * (2 * math.pi / ng)).reshape(-1)
+    return z, wgt
+
+
 _NODES = {}
 
 
 def run_integral(key):
     d = _dist()
     fam, param, mk, seed = key['family'], key['param'], key['mode'], key['seed']
-    if fam in ('watson', 'bingham', 'cacg'):
+    if fam in ('watson3', 'bingham3', 'cacg3'):
+        if 'c3' not in _NODES:
+            _NODES['c3'] = _csphere3_nodes()
+        z, w = _NODES['c3']
+        U = np.eye(3, dtype=complex) if mk == 'basis' else A.unitary(seed, 3, 'int3', fam)
+        z = z @ U.T
+        if fam == 'watson3':
+            model = d.ComplexWatson(mode=U[:, 0].copy(), concentration=np.array(float(param)))
+            target = 1.0
+        elif fam == 'bingham3':
+            g = float(param)
+            model = d.ComplexBingham(covariance_eigenvectors=U,
+                                     covariance_eigenvalues=np.array([0.0, -g, -2.5 * g]))
+            target = 1.0
+        else:
+            lam = np.array([1.0, 1.0 / math.sqrt(float(param)), 1.0 / float(param)])
+            model = d.ComplexAngularCentralGaussian(covariance_eigenvectors=U, covariance_eigenvalues=lam)
+            target = R.sphere_area_complex(3)
+        lp, e = _call(lambda: model.log_pdf(z))
+    elif fam in ('watson', 'bingham', 'cacg'):
         if 'c2' not in _NODES:
             _NODES['c2'] = _csphere2_nodes()
         z, w = _NODES['c2']
@@ -390,7 +426,13 @@ def run_integral(key):
 def subchecks(tier, seed):
     thorough = tier == 'thorough'
     subs = []
-    covkinds = ('identity', 'diagonal') + tuple(str(c) for c in CONDS[1:])
+    global KAPPAS, STACKS
+    conds = CONDS
+    if thorough:
+        KAPPAS = tuple(sorted(set(KAPPAS) | {float(f'{k:.3g}') for k in np.geomspace(1e-6, 500, 70)}))
+        STACKS = ((), (2,), (2, 3), (3, 2, 2))
+        conds = (1.0, 10.0, 1e2, 1e3, 1e4, 1e5, 1e6, 1e7, 1e8)
+    covkinds = ('identity', 'diagonal') + tuple(str(c) for c in conds[1:])
 
     def gauss_cases():
         for fam in ('full', 'diagonal', 'spherical'):
@@ -457,6 +499,14 @@ def subchecks(tier, seed):
         for c in (1.0, 1e2, 1e4):
             for fam in ('gauss1', 'gauss2', 'diag2', 'sph2', 'cgauss1'):
                 yield (fam, c, 'generic', seed)
+        if thorough:
+            for mk in ('basis', 'generic'):
+                for k in (1e-3, 1.0, 5.0, 12.0, 20.0, 50.0, 150.0):
+                    yield ('watson3', k, mk, seed)
+                for g in (1e-3, 0.5, 3.0, 12.0):
+                    yield ('bingham3', g, mk, seed)
+                for c in (1.0, 10.0, 1e2):
+                    yield ('cacg3', c, mk, seed)
     subs.append(Sub('integrates_to_one', ('family', 'param', 'mode', 'seed'), int_cases, run_integral,
                     bound=dict(quadrature='complex unit sphere D=2: 240 GL x 12 x 360 trapezoid nodes; '
                                'S1 4096; S2 400 GL x 256; R^1/R^2 rotated trapezoid grid step 0.05 sigma'),
